@@ -34,7 +34,7 @@ def main():
         modroot = os.path.join(wt, module)
         demodst = os.path.join(modroot, demodir, demo[:-4])
         shutil.copy(os.path.join(sdir, demo), demodst)
-        run_demo = f"go test -vet=off -count=1 -run TestSeeded ./{demodir}/"
+        run_demo = f"go test {os.environ.get('SEEDED_DEMO_FLAGS', '')} -vet=off -count=1 -run TestSeeded ./{demodir}/"
         confirm = meta.get("confirmed", {})
         if not skip:
             rc0, out0 = sh(run_demo, modroot)
